@@ -77,7 +77,7 @@ Section Customs.
 
   Lemma RTb_datavalue : forall m value status st sp svt svp,
     rwf reg (TCustom CDataValue) (VDataValue m value status st sp svt svp) = true ->
-    (forall x, value = Some x -> rwf reg (TCustom CVariant) x = true ->
+    (forall x, value = Some x -> bit m 0 = true -> rwf reg (TCustom CVariant) x = true ->
        RTb 1 k (encode reg (TCustom CVariant) x) (rec (TCustom CVariant)) (rnorm reg (TCustom CVariant) x)) ->
     RTb 1 (S k) (encode reg (TCustom CDataValue) (VDataValue m value status st sp svt svp)) (dec_datavalue rec)
         (rnorm reg (TCustom CDataValue) (VDataValue m value status st sp svt svp)).
@@ -90,7 +90,7 @@ Section Customs.
                      (if bit m 0 then rec (TCustom CVariant) else bind (tick (csize CVariant)) (fun _ => ret zero_variant)) xv).
     { destruct (bit m 0) eqn:B0.
       - use_imp B0. destruct value as [x|]; [|discriminate]. eexists. split; [reflexivity|].
-        eapply RTb_weaken; [apply Hrec; [reflexivity|assumption]|lia|apply le_n].
+        eapply RTb_weaken; [apply Hrec; [reflexivity|reflexivity|assumption]|lia|apply le_n].
       - eexists. split; [reflexivity|]. apply RTb_tick. apply RTb_ret. }
     destruct HV as [xv [Exv HV]]. rewrite Exv.
     rt_weaken ltac:(eapply RTb_bind_strict; [apply le_n|apply RTb_byte; assumption|]; cbv beta;
@@ -106,7 +106,7 @@ Section Customs.
 
   Lemma RTb_diag : forall m sym ns locale loctext info status inner,
     rwf reg (TCustom CDiagInfo) (VDiag m sym ns locale loctext info status inner) = true ->
-    (forall x, inner = Some x -> rwf reg (TCustom CDiagInfo) x = true ->
+    (forall x, inner = Some x -> bit m 6 = true -> rwf reg (TCustom CDiagInfo) x = true ->
        RTb 1 k (encode reg (TCustom CDiagInfo) x) (rec (TCustom CDiagInfo)) (rnorm reg (TCustom CDiagInfo) x)) ->
     RTb 1 (S k) (encode reg (TCustom CDiagInfo) (VDiag m sym ns locale loctext info status inner)) (dec_diag rec)
         (rnorm reg (TCustom CDiagInfo) (VDiag m sym ns locale loctext info status inner)).
@@ -120,7 +120,7 @@ Section Customs.
     { destruct (bit m 6) eqn:B6; [|apply RTb_ret].
       use_imp B6. destruct inner as [x|]; [|discriminate].
       apply (RTb_fmap _ _ _ _ _ _ (@Some val)).
-      eapply RTb_weaken; [apply Hrec; [reflexivity|assumption]|lia|apply le_n]. }
+      eapply RTb_weaken; [apply Hrec; [reflexivity|reflexivity|assumption]|lia|apply le_n]. }
     rt_weaken ltac:(eapply RTb_bind_strict; [apply le_n|apply RTb_byte; assumption|]; cbv beta;
                     eapply RTb_bind; [opt_field RTb_iok|];
                     eapply RTb_bind; [opt_field RTb_iok|];
